@@ -84,7 +84,7 @@ func famConfig(sc *scn.Scenario, em func(vt.Ev)) {
 	decoys := func(s []vstore.Series) []vstore.Series {
 		out := append([]vstore.Series{}, s...)
 		for i := 0; i < 5; i++ {
-			d := vstore.Series{L: labels.FromStrings("__name__", fmt.Sprintf("zz_decoy_%d", i), "a", "x", "i", fmt.Sprint(i)), T: []int64{0, sc.Ms(3), sc.Ms(7)}, V: []float64{1e6, 2e6, 3e6}}
+			d := vstore.Series{L: labels.FromStrings("__name__", fmt.Sprintf("zz_decoy_%d", i), "a", "x", "i", fmt.Sprint(i)), T: []int64{sc.Abs(0), sc.Abs(3), sc.Abs(7)}, V: []float64{1e6, 2e6, 3e6}}
 			pos := r.Intn(len(out) + 1)
 			out = append(out[:pos], append([]vstore.Series{d}, out[pos:]...)...)
 		}
